@@ -165,6 +165,30 @@ func Checkin(agentID uint32, key, iv []byte, cbs ...Callback) []byte {
 	return Header(Magic, agentID, CmdGetJob, 0, enc)
 }
 
+// CheckinAt is Checkin with COMMAND_GET_JOB at position pos among the packages of the request
+// (0 = first, as Checkin builds it; len(cbs) = last): PackageTransmitAll sends whatever is
+// queued, in queue order, and the first package's command and request id form the header.
+func CheckinAt(agentID uint32, key, iv []byte, pos int, cbs ...Callback) []byte {
+	if pos <= 0 || len(cbs) == 0 {
+		return Checkin(agentID, key, iv, cbs...)
+	}
+	if pos > len(cbs) {
+		pos = len(cbs)
+	}
+	var p Pkg
+	p.Bytes(cbs[0].Body)
+	for i, c := range cbs[1:] {
+		if i+1 == pos {
+			p.I32(CmdGetJob).I32(0)
+		}
+		p.I32(c.Cmd).I32(c.ReqID).Bytes(c.Body)
+	}
+	if pos == len(cbs) {
+		p.I32(CmdGetJob).I32(0)
+	}
+	return Header(Magic, agentID, cbs[0].Cmd, cbs[0].ReqID, CTR(key, iv, p.B))
+}
+
 // CheckinRaw is Checkin with an arbitrary (possibly malformed) plaintext tail.
 func CheckinRaw(agentID uint32, key, iv []byte, plainTail []byte) []byte {
 	enc := plainTail
